@@ -309,6 +309,11 @@ func (prop) Generate(rng *core.Rand, tier string, emit func(string)) {
 	}
 	g := &gen{rng: rng}
 	for c := 0; c < n; {
+		if g.rng.Chance(1, 16) {
+			emit(g.heLine())
+			c++
+			continue
+		}
 		rs, hasErrs, errs, named := g.tree(tier)
 		// a few requests per tree: the same routes seen from different hosts/paths/methods
 		for k := 1 + g.rng.Intn(3); k > 0 && c < n; k-- {
@@ -452,6 +457,9 @@ var shrunk = map[string]int{}
 
 func (prop) Run(line string) (o core.Outcome) {
 	f := strings.Fields(line)
+	if len(f) == 4 && f[0] == "he" {
+		return runHE(line, f)
+	}
 	if len(f) != 3 && len(f) != 4 {
 		return core.Outcome{Impl: "bad-op", Tags: []string{"trivial", "malformed"}}
 	}
